@@ -223,6 +223,10 @@ def gen_case(r):
         y = change_path(r, x, d)
     elif cls == "rule":
         x = G.rule_for(r, d, mode="typed", cast_p=40, cond_depth=2, max_len=3)
+        if r.pct() < 25:
+            # a condition with data-path arguments (resolved against each validated document)
+            from . import c17
+            x = x.replace(cond=c17.gen_leaf_with_paths(r, d), cast=None)
         y = change_rule(r, x, d)
     else:
         rules = [G.rule_for(r, d, mode="typed", cast_p=30, cond_depth=1, max_len=3) for _ in range(r.between(1, 3))]
@@ -379,6 +383,16 @@ def body(case):
             if a < b and eq[(a, b)] is True and beh[a] != beh[b]:
                 out.add("equal-implies-same-behaviour", f"equal-implies-same-behaviour|{cls}",
                         f"{show(objs[a],250)} == {show(objs[b],250)} but behave differently on {show(probes,150)}: {show(beh[a],150)} vs {show(beh[b],150)}")
+    # equality must not depend on the objects having been used: after all the calls above, x
+    # still equals a copy built now, and the copies still equal each other
+    try:
+        fresh = build_any(cls, x)
+        if not (ox == fresh and fresh == ox):
+            out.add("copies-equal", f"copies-equal|after-use|{cls}", f"after being used on the probe documents, {show(ox,250)} no longer equals a freshly built copy {show(fresh,250)}")
+        elif not (ox == orb and orb == ox):
+            out.add("copies-equal", f"copies-equal|after-use|{cls}", "two copies that were equal before use compare unequal after use")
+    except Exception as e:
+        out.exc("equality-after-use", e)
     differs = oy is not None and ref_behaviour(cls, x, probes) != ref_behaviour(cls, y, probes)
     d = has_op(x)
     if differs:
